@@ -73,6 +73,7 @@ def dump_mir(log=None):
 
 def load_program(mirs):
     prog = Program()
+    prog.rel_base = HARNESS
     for name, vs in STD_ENUMS.items():
         prog.enums[name] = vs
     for d in (os.path.join(REPO, "src"), os.path.join(HARNESS, "src")):
